@@ -185,7 +185,10 @@ var c10PayloadPlain = []string{
 	"{% set x = 1 %}", "{{ foo }}", "{%- if x %}", "{# comment #}", "{% endif -%}", "- [", "foo: : bar", "\t- tab", "  - alert: 'unterminated",
 	"}}}", ": :", "&anchor *alias", "? !!", "--- # doc", "...", "  - alert: Fake", "    expr: up == 1", "  - record: fake", "groups:", "- name: other",
 	"    labels: {a: b}", "", "   ", "# plain comment", "text", "a very long line of text that goes on and on and on and on and on and on and on",
-	"caf\xc3\xa9 \xff\xfe", "cr\r", "  expr: |", "    annotations:", "'", "\"", "@", "`", "[a, b", "# pintx ignore/end", "#pint", "key: value",
+	"caf\xc3\xa9 \xff\xfe", "cr\r",
+	// non-ASCII text (2-, 3-, 4-byte characters) whose LAST bytes are active yaml syntax: a byte/character mix-up in front of an
+	// ignore/line directive lets exactly these bytes through
+	"{{ žluťoučký kůň }}", "{%- if šířka > 0 %}", "é: [", "名前: {日本語}", "\"über", "😀😀 ]", "ключ: 'значение", "- ¿qué? : :", "  expr: |", "    annotations:", "'", "\"", "@", "`", "[a, b", "# pintx ignore/end", "#pint", "key: value",
 }
 
 var c10PayloadComments = []string{
@@ -358,19 +361,20 @@ rule {
 `
 
 type c10Pair struct {
-	ID      int      `json:"id"`
-	Kind    string   `json:"kind"` // replace | insert
-	Form    []int    `json:"forms"`
-	A       string   `json:"file_a"`
-	B       string   `json:"file_b"`
-	After   int      `json:"insert_after_line,omitempty"`
-	K       int      `json:"inserted_lines,omitempty"`
-	Class   bool     `json:"control_comment_in_excluded_text"`
-	Column  bool     `json:"directive_column_moved"`
-	Scalar  bool     `json:"excluded_length_changed_in_block_scalar"`
-	Long    bool     `json:"excluded_line_crosses_yaml_comment_lookahead"`
-	Diffs   []string `json:"diffs,omitempty"`
-	Relaxed bool     `json:"relaxed"`
+	ID       int      `json:"id"`
+	Kind     string   `json:"kind"` // replace | insert
+	Form     []int    `json:"forms"`
+	A        string   `json:"file_a"`
+	B        string   `json:"file_b"`
+	After    int      `json:"insert_after_line,omitempty"`
+	K        int      `json:"inserted_lines,omitempty"`
+	Class    bool     `json:"control_comment_in_excluded_text"`
+	Column   bool     `json:"directive_column_moved"`
+	Scalar   bool     `json:"excluded_length_changed_in_block_scalar"`
+	Long     bool     `json:"excluded_line_crosses_yaml_comment_lookahead"`
+	Diffs    []string `json:"diffs,omitempty"`
+	Relaxed  bool     `json:"relaxed"`
+	Embedded int      `json:"embedded_levels,omitempty"` // wrapped this many times into literal block scalars
 }
 
 func c10RunPint(dir, name, content string) (string, string) {
@@ -449,6 +453,13 @@ func c10Oracle(r *rand.Rand, rep *runReport, n int, cw *caseWriter, nextID *int)
 			pairs = append(pairs, c10GenInsert(r, b, withComments))
 		}
 	}
+	for i := ncorpus; i < len(pairs); i++ {
+		// one pair in three: the same two files embedded in literal block scalars (an insertion at the very top would make the
+		// inserted block the first line of the scalar: not generated)
+		if r.Intn(3) == 0 && !(pairs[i].Kind == "insert" && pairs[i].After == 0) {
+			c10Wrap(&pairs[i], r)
+		}
+	}
 	for i := range pairs {
 		pairs[i].ID = i
 	}
@@ -520,6 +531,9 @@ func c10Oracle(r *rand.Rand, rep *runReport, n int, cw *caseWriter, nextID *int)
 			p.Form = p.Form[:len(p.Form)-1]
 		}
 		rep.hist("oracle:" + p.Kind)
+		if p.Embedded > 0 {
+			rep.hist(fmt.Sprintf("oracle:embedded-%d-levels", p.Embedded))
+		}
 		if p.Kind == "replace" && c10SameLengths(p.A, p.B) {
 			rep.hist("oracle:replace-same-length")
 		}
@@ -775,6 +789,52 @@ func c10GenReplace(r *rand.Rand, b c10Base, withComments bool) c10Pair {
 		emit("", true)
 	}
 	return c10Pair{Kind: "replace", Form: forms, A: c10Join(la, true), B: c10Join(lb, r.Intn(8) > 0 || true), Relaxed: r.Intn(4) == 0}
+}
+
+// c10Wrap: stratum "YAML embedded in YAML" (kubernetes ConfigMap style, as C06/C19 generate): both files of the pair are wrapped
+// 1-2 times into a literal block scalar. Every line is indented by the block indentation EXCEPT entirely excluded lines, which
+// are (per line, the same decision in both files) kept verbatim — so their blanked length is below, equal to or above the block
+// indentation depending on the payload — or indented like the rest. The first line of a block is never an excluded line.
+// Relaxed mode only (strict mode reports the same error for both files).
+func c10Wrap(p *c10Pair, r *rand.Rand) {
+	depth := pick(r, []int{1, 1, 2})
+	for d := 0; d < depth; d++ {
+		ind := pick(r, []int{3, 4, 6, 8})
+		hdr := []string{"data:", "  rules.yml: |"}
+		if d > 0 {
+			hdr = []string{"config:", "  inner.yml: |-"}
+		}
+		seed := r.Int63()
+		wrap := func(text string) string {
+			rr := rand.New(rand.NewSource(seed))
+			ex := map[int]bool{}
+			exl, _ := c10Excluded([]byte(text))
+			for _, n := range exl {
+				ex[n] = true
+			}
+			finalNL := strings.HasSuffix(text, "\n")
+			ls := strings.Split(strings.TrimSuffix(text, "\n"), "\n")
+			out := append([]string{}, hdr...)
+			for i, l := range ls {
+				keep := rr.Intn(2) == 0 // drawn for every line so that both files decide alike
+				switch {
+				case l == "":
+					out = append(out, "")
+				case ex[i+1] && keep && i > 0:
+					out = append(out, l)
+				default:
+					out = append(out, strings.Repeat(" ", ind)+l)
+				}
+			}
+			return c10Join(out, finalNL)
+		}
+		p.A, p.B = wrap(p.A), wrap(p.B)
+		if p.Kind == "insert" {
+			p.After += len(hdr)
+		}
+	}
+	p.Relaxed = true
+	p.Embedded = depth
 }
 
 // c10PadEqual pads the shorter of a[i], b[i] with trailing spaces (excluded text, so anything goes).
